@@ -161,7 +161,12 @@ pub fn generate_seq(case_seed: u64, idx: u64, tier: Tier, flavor: &str) -> SeqCa
     let mode = match (flavor, idx % 4) {
         ("c01", 0) | ("c01", 1) | ("c02", 0) | ("c04", 0) => SeqMode::Sweep { nested_stride: if idx % 8 == 0 { 3 } else { 0 } },
         ("c01", _) => {
-            let site = if rng.bool() { Site::Mutation(rng.below(6 * n as u64 + 8)) } else { Site::Call(rng.below(12 * n as u64 + 20)) };
+            let site = match rng.below(5) {
+                0 | 1 => Site::Mutation(rng.below(6 * n as u64 + 8)),
+                2 | 3 => Site::Call(rng.below(12 * n as u64 + 20)),
+                // aimed at one kind of object: the rarely written ones are hardly ever hit by position
+                _ => Site::MutationOf { suffix: rng.pick(&["alloc_watermark.cbor", "ids.cbor", "meta.cbor", "storage_meta.cbor", "db_meta.cbor"]).to_string(), nth: rng.below(3) },
+            };
             let kind = if rng.chance(2, 3) { FaultKind::FailAfter } else { FaultKind::FailBefore };
             SeqMode::Fault { fault: FaultSpec { site, kind }, recover: if rng.bool() { Recover::Restart } else { Recover::Reopen } }
         }
@@ -553,6 +558,20 @@ pub fn run_seq(case: &SeqCase, rep: &mut RunReport) -> Result<(), Violation> {
         let _ = nforks;
     } else {
         sigs.push(sim.signature() ^ trace.0);
+        // power loss at the end of a single-fault run: everything acknowledged
+        // since the fault - on a handle that stayed in service - must survive
+        // like anything else (skipped while an unacknowledged extension write
+        // may legitimately differ between handle and storage)
+        if matches!(case.mode, SeqMode::Fault { .. }) && unsettled_ext.is_empty() && real_faults(&sim) > 0 {
+            let kf = with_ix(cur_ix);
+            let cc = CrashCheck { knobs: &kf, ledger: &ledger, ops: &case.ops, seed: case.seed, reboot_delta: case.reboot_delta };
+            let ctx = "power loss at the end of a run that had met one injected fault".to_string();
+            let mut b = cc.boot_fork(store.disk().fork(), end_clock, true, false, &ctx)?;
+            cc.verify(&mut b, case.ops.len(), &ctx, rep)?;
+            rep.fire("power_loss_after_fault_run", 1);
+            evals += 1;
+            sim.install_clock_here();
+        }
     }
     let _ = creation_mutations;
     rep.evaluations = evals;
